@@ -25,6 +25,8 @@ BUILT = {
          "trusted: probe values; link MTU threshold >= configured min_mtu"),
  "C14": ("tokens", "model-based histories of BloomTokenLog (Set->Bloom conversion, both roll-over branches, fingerprint collisions) and TokenMemoryCache (all capacities incl. 0, LRU eviction): Ok never twice for one nonce inside the validity window, every take() was inserted and at most as often; [server-side token presentation model and Retry/CID-echo tampering: in progress]",
          "trusted: reference models; contract derived from module docs and the caller in token.rs"),
+ "C10": ("codec", "enumeration plus proptest over the verif-hooks codec wrappers: varints (all 1/2-byte values, boundary-dense 4/8-byte), packet-number truncation/expansion vs RFC 9000 A.2/A.3 reference, frames of all 24 kinds, headers/coalesced packets, transport parameters, tokens (AES-GCM and SimCrypto keys), hashed CIDs: decode(encode(x)) == x, differential agreement with the independent codec wire.rs in both directions, byte-equality of encoders, close frames fit their budget; totality: arbitrary bytes, mutations and every prefix of valid encodings through every decoder without panic or out-of-bounds, accept => re-encode fixpoint",
+         "trusted: independent reference codec wire.rs (checked against itself); RFC-strictness disagreements on transport parameters (non-minimal integers refused; slack bytes in two parameters accepted) are observations, not violations of C10 as stated"),
  "C20": ("simnet", "metamorphic replay relations on generated histories: R1 identical replay, R2 all instants shifted by a constant (1 us .. 10 years), R3 spurious handle_timeout/poll_transmit calls inserted; byte-exact output traces compared; extra calls return nothing; timeout service converges at one instant; silence after Drained",
          "trusted: harness; byte-exact under SimCrypto with seeded CID generator, reduced trace otherwise; TLS randomness excluded"),
  "C16": ("simnet", "datagram payload identity / at-most-once at recv(), oldest-first receive-buffer reference model fed with frames the connection reports processed, send() result model, send_buffer_space, max_size bounds, wire order, DatagramsUnblocked",
@@ -69,6 +71,10 @@ m = {
     "engines": [
         {"name": "simnet", "path": "/verif/harness/src/simnet.rs", "serves_properties": [c["property_id"] for c in checks if "simnet" in c["engine"]],
          "kind_free_text": "deterministic network of sans-IO quinn-proto endpoints on a virtual clock; harness crypto (SimCrypto) or rustls; independent wire observer; event-driven application model"},
+        {"name": "codec", "path": "/verif/harness/src/checks/c10.rs", "serves_properties": [c["property_id"] for c in checks if c["engine"] == "codec"],
+         "kind_free_text": "enumeration and proptest drivers over quinn-proto's encoders/decoders (reached through the verif-hooks codec wrappers) with the independent codec wire.rs as differential reference; cargo-fuzz targets in /verif/fuzz share the same case functions"},
+        {"name": "tokens", "path": "/verif/harness/src/checks/c14c.rs", "serves_properties": [c["property_id"] for c in checks if c["engine"] == "tokens"],
+         "kind_free_text": "model-based operation histories against BloomTokenLog / TokenMemoryCache reference models"},
     ],
     "checks": checks,
     "not_applicable": na,
